@@ -19,7 +19,11 @@ normalisation of the budget is no substitute, the position is never
 normalised) -- and every normal return of
 exhaust() / readall() / the body iterator leaves the receive buffer empty and
 the budget at 0 (exhaust advancing the position by the buffered bytes it
-drops); R5 termination, R6 lazy wrapping on both request classes.
+drops); an event whose body is left unread is provably a disconnect or lacks the 'body' key; R5 termination -- the
+guard of every receive loop has its boundary exactly at budget > 0 (it runs only while the budget is positive AND stops
+for lack of budget only at 0), a constant index into a chunk list the method built is guarded by a proof that the list
+is long enough (a disconnect before any data leaves it empty) --, R6 lazy wrapping on both request classes; the budget
+that stands in for a missing / an invalid Content-Length is exactly 0.
 """
 
 from __future__ import annotations
